@@ -322,6 +322,9 @@ package main
 //@   atcall github.com/pquerna/otp/totp.Validate requires (passcode string, secret string) :: ghostProfileUser == username && ghostProfile.LastSuccessfullTOTPCounter != totpPeriodOf(t)  #C05.totp-one-time @C05
 //@   atcall github.com/pquerna/otp/totp.Validate requires (passcode string, secret string) :: timeNanos(old(state.totpLocalRateLimit[username].lastCheckTime)) + 2000000000 <= nowNanos()  #C14.totp-spacing @C14
 //@   atcall github.com/pquerna/otp/totp.Validate requires (passcode string, secret string) :: timeNanos(old(state.totpLocalRateLimit[username].lockoutExpirationTime)) <= nowNanos()  #C14.totp-lockout-respected @C14
+// the gate is one critical section: when a code is evaluated, this attempt's time is already the published last-check
+// time (taking the mutex again would forget it), so attempts arriving meanwhile are refused by the gate
+//@   atcall github.com/pquerna/otp/totp.Validate requires (passcode string, secret string) :: hasKey(state.totpLocalRateLimit, username) && timeNanos(state.totpLocalRateLimit[username].lastCheckTime) == nowNanos()  #C14.totp-gate-published @C14,C16
 //@   ensures ret0 && ret1 == nil ==> state.totpLocalRateLimit[username].failCount == 0                     #C14.totp-reset-on-success @C14
 //@   ensures !ret0 && ret1 == nil && state.totpLocalRateLimit[username].failCount != old(state.totpLocalRateLimit[username].failCount) && state.totpLocalRateLimit[username].failCount % 5 == 0 ==> timeNanos(state.totpLocalRateLimit[username].lockoutExpirationTime) >= nowNanos() + 3600000000000  #C14.totp-lockout-escalates @C14
 //@   ensures !ret0 && ret1 == nil && old(state.totpLocalRateLimit[username].failCount) < 4000000000 && timeNanos(old(state.totpLocalRateLimit[username].lastCheckTime)) + 2000000000 <= nowNanos() && timeNanos(old(state.totpLocalRateLimit[username].lockoutExpirationTime)) <= nowNanos() && ghostProfile.LastSuccessfullTOTPCounter != totpPeriodOf(t) ==> state.totpLocalRateLimit[username].failCount >= 1  #C14.totp-failure-counted @C14
